@@ -40,7 +40,7 @@ def _replay_env():
     return env
 
 
-def run_replay(binary, scenarios, timeout=900):
+def run_replay(binary, scenarios, timeout=int(os.environ.get('VERIF_REPLAY_TIMEOUT', '3600'))):
     """run a batch of scenarios through the replay binary; returns list of outputs (large batches in parallel)"""
     n = len(scenarios)
     if n <= 64:
